@@ -342,6 +342,12 @@ pub struct Vm {
 }
 
 impl Vm {
+    /// Value currently held in a stack slot (globals live at the bottom of the stack).
+    #[cfg(feature = "verif")]
+    pub(crate) fn verif_stack_slot(&self, index: usize) -> Option<&Value> {
+        self.stack.get(index)
+    }
+
     pub fn new() -> Self {
         Self {
             bytecode: vec![("<main>".into(), vec![], vec![])],
